@@ -4,6 +4,7 @@ import (
 	"errors"
 	"fmt"
 	"math"
+	"math/big"
 	"strconv"
 	"time"
 
@@ -34,11 +35,12 @@ type Case struct {
 	Kind          string `json:"kind"` // finite | valid
 	N             int    `json:"n,omitempty"`
 	Auto          bool   `json:"auto"`
-	TTL           int    `json:"ttl,omitempty"`        // ticks
-	GCInterval    int    `json:"gcinterval,omitempty"` // ticks; -1: keep the default (TTL/4)
-	EmptyIDSerial int    `json:"emptyid"`              // manual IDs: this put carries the (valid) empty ID; -1 none
-	Prefill       int    `json:"prefill,omitempty"`    // number of valid puts performed before Ops (topics cycle deterministically)
-	NsTicks       bool   `json:"nsticks,omitempty"`    // valid: one tick is a nanosecond instead of a millisecond (TTL and GCInterval down to 1ns)
+	TTL           int    `json:"ttl,omitempty"`         // ticks
+	GCInterval    int    `json:"gcinterval,omitempty"`  // ticks; -1: keep the default (TTL/4)
+	EmptyIDSerial int    `json:"emptyid"`               // manual IDs: this put carries the (valid) empty ID; -1 none
+	Prefill       int    `json:"prefill,omitempty"`     // number of valid puts performed before Ops (topics cycle deterministically)
+	NsTicks       bool   `json:"nsticks,omitempty"`     // valid: one tick is a nanosecond instead of a millisecond (TTL and GCInterval down to 1ns)
+	SparseProbe   bool   `json:"sparseprobe,omitempty"` // the invariant probe (itself a successful Replay, so an observation that can reset replayer state) runs only after the last step instead of after every step
 	Ops           []Op   `json:"ops"`
 }
 
@@ -130,6 +132,7 @@ func genFiniteCase(t *rapid.T) Case {
 	c.Prefill = stats.Pick(t, 3*c.N+1, "prefill")
 	minOps := 1 + stats.Pick(t, min(3*c.N, 30), "minops")
 	c.Ops = rapid.SliceOfN(genOp(false, 0), minOps, min(6*c.N+10, 70)).Draw(t, "ops")
+	c.SparseProbe = stats.Pct(t, "sparseprobe") >= 70
 	return c
 }
 
@@ -157,6 +160,7 @@ func genValidCase(t *rapid.T) Case {
 	c.Prefill = rapid.IntRange(0, 20).Draw(t, "prefill")
 	minOps := rapid.IntRange(1, 40).Draw(t, "minops")
 	c.Ops = rapid.SliceOfN(genOp(true, c.TTL), minOps, 70).Draw(t, "ops")
+	c.SparseProbe = stats.Pct(t, "sparseprobe") >= 70
 	return c
 }
 
@@ -204,10 +208,15 @@ func (m *model) presented(op Op) (id sse.EventID, kind string, pos int) {
 	vis, invis := m.visibleIdx()
 	never := func() (sse.EventID, string, int) {
 		if m.c.Auto {
-			switch op.K % 5 {
+			switch op.K % 6 {
+			case 5:
+				// never-issued 20-digit numbers just above 2^64: modulo 2^64 they would land on
+				// an issued (buffered or evicted) ID
+				j := max(m.nextAuto-2-op.K/6, 0)
+				return sse.ID(new(big.Int).Add(new(big.Int).Lsh(big.NewInt(1), 64), big.NewInt(int64(j))).String()), "never", -1
 			case 3:
 				// huge never-issued numbers (beyond int64, at the uint64 limit)
-				return sse.ID([]string{"18446744073709551615", "9223372036854775808", "9223372036854775807", "18446744073709551614"}[op.K/5%4]), "never", -1
+				return sse.ID([]string{"18446744073709551615", "9223372036854775808", "9223372036854775807", "18446744073709551614"}[op.K/6%4]), "never", -1
 			case 4:
 				return sse.ID(strconv.FormatUint(uint64(m.nextAuto)+1<<63, 10)), "never", -1
 			case 0:
@@ -422,6 +431,9 @@ func (w *world) replay(op Op, probe bool) string {
 	}
 	if !probe {
 		w.v.Class("replay:" + kind)
+		if len(op.Topics) > 4 {
+			w.v.Class("replay-wide")
+		}
 	}
 
 	// Split the writer log.
@@ -484,6 +496,9 @@ func (w *world) replay(op Op, probe bool) string {
 		}
 		if !probe {
 			w.v.Class("replay-fault-hit")
+			if len(op.Topics) > 4 {
+				w.v.Class("replay-fault-hit-wide")
+			}
 		}
 	} else if err != nil {
 		return fmt.Sprintf("Replay returned %v although the writer never failed: %s", err, desc())
@@ -545,12 +560,15 @@ func (m *model) describe() string {
 // probe is the invariant evaluated after every step: presenting the oldest visible ID with
 // all topics must yield every later visible entry (so the whole buffer is compared with
 // the model after each operation).
-func (w *world) probe() string {
+func (w *world) probe(last bool) string {
+	if w.m.c.SparseProbe && !last {
+		return ""
+	}
 	vis, _ := w.m.visibleIdx()
 	if len(vis) == 0 {
 		return ""
 	}
-	if f := w.replay(Op{Kind: "replay", IDKind: "oldest", Topics: allTopics, FailSend: -1}, true); f != "" {
+	if f := w.replay(Op{Kind: "replay", IDKind: "oldest", Topics: wideTopics, FailSend: -1}, true); f != "" {
 		return "invariant probe: " + f
 	}
 	return ""
